@@ -35,13 +35,13 @@ pub struct SchedBufX<X: ConcurrentIterX> {
 }
 
 #[inline]
-fn before_pull(req: usize, how: i64) {
-    sched::point(OpKind::Pull, req as i64, how);
+fn before_pull(req: usize, how: i64) -> usize {
+    sched::point(OpKind::Pull, req as i64, how)
 }
 
 #[inline]
-fn after_pull(begin: Option<usize>, got: usize) {
-    sched::set_result(begin.map(|x| x as i64).unwrap_or(-1), got as i64);
+fn after_pull(h: usize, begin: Option<usize>, got: usize) {
+    sched::set_result_at(h, begin.map(|x| x as i64).unwrap_or(-1), got as i64);
 }
 
 // ---- SchedIter: full ConcurrentIter ----
@@ -56,16 +56,16 @@ impl<I: ConcurrentIter> ConcurrentIterX for SchedIter<I> {
     }
 
     fn next_chunk_x(&self, chunk_size: usize) -> Option<impl ExactSizeIterator<Item = Self::Item>> {
-        before_pull(chunk_size, P_CHUNK_X);
+        let h = before_pull(chunk_size, P_CHUNK_X);
         let r = self.inner.next_chunk_x(chunk_size);
-        after_pull(None, r.as_ref().map(|x| x.len()).unwrap_or(0));
+        after_pull(h, None, r.as_ref().map(|x| x.len()).unwrap_or(0));
         r
     }
 
     fn next(&self) -> Option<Self::Item> {
-        before_pull(1, P_NEXT);
+        let h = before_pull(1, P_NEXT);
         let r = self.inner.next();
-        after_pull(None, r.is_some() as usize);
+        after_pull(h, None, r.is_some() as usize);
         r
     }
 
@@ -94,16 +94,16 @@ impl<I: ConcurrentIter> ConcurrentIter for SchedIter<I> {
     }
 
     fn next_id_and_value(&self) -> Option<Next<Self::Item>> {
-        before_pull(1, P_NEXT_ID);
+        let h = before_pull(1, P_NEXT_ID);
         let r = self.inner.next_id_and_value();
-        after_pull(r.as_ref().map(|x| x.idx), r.is_some() as usize);
+        after_pull(h, r.as_ref().map(|x| x.idx), r.is_some() as usize);
         r
     }
 
     fn next_chunk(&self, chunk_size: usize) -> Option<NextChunk<Self::Item, impl ExactSizeIterator<Item = Self::Item>>> {
-        before_pull(chunk_size, P_CHUNK);
+        let h = before_pull(chunk_size, P_CHUNK);
         let r = self.inner.next_chunk(chunk_size);
-        after_pull(r.as_ref().map(|x| x.begin_idx), r.as_ref().map(|x| x.values.len()).unwrap_or(0));
+        after_pull(h, r.as_ref().map(|x| x.begin_idx), r.as_ref().map(|x| x.values.len()).unwrap_or(0));
         r
     }
 }
@@ -120,18 +120,18 @@ impl<I: ConcurrentIter> BufferedChunkX<I::Item> for SchedBuf<I> {
     }
 
     fn pull_x(&mut self, iter: &Self::ConIter) -> Option<impl ExactSizeIterator<Item = I::Item>> {
-        before_pull(self.inner.chunk_size(), P_PULL_X);
+        let h = before_pull(self.inner.chunk_size(), P_PULL_X);
         let r = self.inner.pull_x(&iter.inner);
-        after_pull(None, r.as_ref().map(|x| x.len()).unwrap_or(0));
+        after_pull(h, None, r.as_ref().map(|x| x.len()).unwrap_or(0));
         r
     }
 }
 
 impl<I: ConcurrentIter> BufferedChunk<I::Item> for SchedBuf<I> {
     fn pull(&mut self, iter: &Self::ConIter) -> Option<NextChunk<I::Item, impl ExactSizeIterator<Item = I::Item>>> {
-        before_pull(self.inner.chunk_size(), P_PULL);
+        let h = before_pull(self.inner.chunk_size(), P_PULL);
         let r = self.inner.pull(&iter.inner);
-        after_pull(r.as_ref().map(|x| x.begin_idx), r.as_ref().map(|x| x.values.len()).unwrap_or(0));
+        after_pull(h, r.as_ref().map(|x| x.begin_idx), r.as_ref().map(|x| x.values.len()).unwrap_or(0));
         r
     }
 }
@@ -148,16 +148,16 @@ impl<X: ConcurrentIterX> ConcurrentIterX for SchedIterX<X> {
     }
 
     fn next_chunk_x(&self, chunk_size: usize) -> Option<impl ExactSizeIterator<Item = Self::Item>> {
-        before_pull(chunk_size, P_CHUNK_X);
+        let h = before_pull(chunk_size, P_CHUNK_X);
         let r = self.inner.next_chunk_x(chunk_size);
-        after_pull(None, r.as_ref().map(|x| x.len()).unwrap_or(0));
+        after_pull(h, None, r.as_ref().map(|x| x.len()).unwrap_or(0));
         r
     }
 
     fn next(&self) -> Option<Self::Item> {
-        before_pull(1, P_NEXT);
+        let h = before_pull(1, P_NEXT);
         let r = self.inner.next();
-        after_pull(None, r.is_some() as usize);
+        after_pull(h, None, r.is_some() as usize);
         r
     }
 
@@ -187,9 +187,9 @@ impl<X: ConcurrentIterX> BufferedChunkX<X::Item> for SchedBufX<X> {
     }
 
     fn pull_x(&mut self, iter: &Self::ConIter) -> Option<impl ExactSizeIterator<Item = X::Item>> {
-        before_pull(self.inner.chunk_size(), P_PULL_X);
+        let h = before_pull(self.inner.chunk_size(), P_PULL_X);
         let r = self.inner.pull_x(&iter.inner);
-        after_pull(None, r.as_ref().map(|x| x.len()).unwrap_or(0));
+        after_pull(h, None, r.as_ref().map(|x| x.len()).unwrap_or(0));
         r
     }
 }
